@@ -189,6 +189,28 @@ def _is_forward(ctx, module, step, expanded, key_param, fwd_args, fwd_kwargs, me
     if case not in ("reduce", "accumulate", "__call__"):
         case = None
     if case is None:
+        # table-driven form:  method in ("reduce", "accumulate")  and  key = TABLE[method][ufunc]
+        cases = None
+        for node, polarity in step.fact_items():
+            if polarity is True and isinstance(node, ast.Compare) and len(node.ops) == 1 and isinstance(node.ops[0], ast.In) \
+                    and is_param(node.left, method_param) and isinstance(node.comparators[0], (ast.Tuple, ast.List, ast.Set)) \
+                    and all(isinstance(e, ast.Constant) for e in node.comparators[0].elts):
+                cases = [e.value for e in node.comparators[0].elts]
+        if cases and set(cases) <= {"reduce", "accumulate"} and isinstance(key, ast.Subscript) \
+                and is_param(key.slice, key_param) and isinstance(key.value, ast.Subscript) \
+                and is_param(key.value.slice, method_param):
+            binding = ctx.res.resolve_expr(module, key.value.value)
+            table = binding.node.value if binding.kind == "assign" else None
+            if isinstance(table, ast.Dict):
+                entries = {k.value: ctx.dotted(module, v) for k, v in zip(table.keys, table.values)
+                           if isinstance(k, ast.Constant)}
+                want = {"reduce": "numpoly.baseclass.REDUCE_MAPPINGS", "accumulate": "numpoly.baseclass.ACCUMULATE_MAPPINGS"}
+                wrong = [c for c in cases if entries.get(c) != want[c]]
+                if wrong:
+                    return False, (f"method '{wrong[0]}' is looked up in {entries.get(wrong[0])}, it must use "
+                                   f"{want[wrong[0]].split('.')[-1]}")
+                return True, f"forwards {'/'.join(cases)} through {U(key.value.value)}"
+    if case is None:
         return False, ("a forwarding path is not guarded by method == '__call__' / 'reduce' / "
                        "'accumulate' (other ufunc methods must raise FeatureNotSupported)")
     if case == "__call__":
